@@ -1916,7 +1916,7 @@ EMPTY_SHAPES = [["array", 1, 0], ["stack", 1, 0], ["stack", 2, 0], ["stack", 0, 
 
 
 def audit_shards(tier):
-    out = [{"kind": "audit", "what": w} for w in ("models", "alias", "flavours", "edge", "derived")]
+    out = [{"kind": "audit", "what": w} for w in ("models", "alias", "flavours", "edge", "derived", "third")]
     out.append({"kind": "audit", "what": "models_big"})
     return out
 
@@ -1959,6 +1959,19 @@ def audit_cases(shard, tier):
             for h in (False, True):
                 for var in flavour_variants():
                     yield {"kind": "audit", "what": "flavours", "stack": stack, "h36": h, "var": var}
+    elif w == "third":
+        for name in REUSE_ITEMS:
+            yield {"kind": "audit", "what": "model_range", "item": name}
+            for state in AMBIENT_STATES:
+                for phase in ("write", "read", "both"):
+                    yield {"kind": "audit", "what": "ambient", "item": name, "state": state, "phase": phase}
+        for name in REUSE_BAD:
+            for state in AMBIENT_STATES:
+                yield {"kind": "audit", "what": "ambient", "item": name, "state": state, "phase": "write"}
+        for stack in (False, True):
+            for occ in OCC_POLICY:
+                for opt in ("first", "occupancy", "all"):
+                    yield {"kind": "audit", "what": "altloc", "stack": stack, "occ": occ, "option": opt}
     elif w == "derived":
         for name in REUSE_ITEMS:
             for d in DERIVATIONS:
@@ -2292,6 +2305,8 @@ def run_audit_case(ctx, case, count=False):
             fail("PDBFile.set_structure", "lines_depend_on_array_flavour", klass,
                  "same values in another array representation give another file", ref_lines[k:k + 2], lines[k:k + 2])
         return
+    if what in ("model_range", "ambient", "altloc"):
+        return run_third_case(ctx, case, count, fail)
     # ---- DERIVED INPUTS: structures handed out by the library itself, written like directly built ones -----------
     if what == "derived":
         if count:
@@ -2572,3 +2587,174 @@ def rebuild_selected(src, idx, models, repeat=False, extra_model=None, as_stack=
             rows = [[pos[i], pos[j], t] for i, j, t in old if i in pos and j in pos]
         out.bonds = struc.BondList(n, np.array(rows, dtype=np.int64).reshape(-1, 3))
     return out
+
+
+# ---------------------------------------------------------------------------
+# third audit: arguments that refer to more than the file has (F), ambient state as an event (G),
+# boundary values of the occupancy the altloc policy compares (I)
+# ---------------------------------------------------------------------------
+AMBIENT_STATES = ["errstate_raise", "errstate_ignore", "printoptions", "warnings_error"]
+OCC_POLICY = {"absent": None, "all_zero": [0.0, 0.0, 0.0], "all_one": [1.0, 1.0, 1.0], "all_equal": [0.5, 0.5, 0.5],
+              "all_negative": [-1.0, -1.0, -1.0], "first_not_max": [0.0, 1.0, 0.0], "mixed": [1.0, 0.0, 0.5],
+              "max_shared": [0.75, 0.75, 0.25]}
+
+
+class _Ambient:
+    """Context manager that puts one piece of ambient interpreter state into an unusual setting."""
+
+    def __init__(self, state, active):
+        self.state, self.active, self.cms = state, active, []
+
+    def __enter__(self):
+        if not self.active:
+            return self
+        if self.state == "errstate_raise":
+            self.cms = [np.errstate(all="raise")]
+        elif self.state == "errstate_ignore":
+            self.cms = [np.errstate(all="ignore")]
+        elif self.state == "printoptions":
+            self.cms = [np.printoptions(precision=1, threshold=1, edgeitems=1, linewidth=10, suppress=True, sign="+",
+                                        floatmode="fixed", legacy="1.13")]
+        elif self.state == "warnings_error":
+            cm = warnings.catch_warnings()
+            self.cms = [cm]
+        for cm in self.cms:
+            cm.__enter__()
+        if self.state == "warnings_error":
+            warnings.simplefilter("error")
+        return self
+
+    def __exit__(self, *a):
+        for cm in reversed(self.cms):
+            cm.__exit__(*a)
+        return False
+
+
+def run_third_case(ctx, case, count, fail):
+    from biotite.structure.io.pdb import PDBFile
+
+    what = case["what"]
+    # ---- F: model numbers / fields beyond what the file holds, in both directions ---------------------------
+    if what == "model_range":
+        name = case["item"]
+        m = REUSE_ITEMS[name]["m"]
+        ref_lines, ref_obs = reuse_ref(name)
+        arr, h36 = reuse_build(name)
+        f = PDBFile()
+        f.set_structure(arr, hybrid36=h36)
+        for k in (0, m + 1, m + 2, -(m + 1), -(m + 2), 10 ** 6, -(10 ** 6)):
+            klass = "zero" if k == 0 else ("positive_beyond_last_model" if k > 0 else "negative_beyond_first_model")
+            for gname in ("get_structure", "get_coord", "get_b_factor"):
+                if count:
+                    ctx.ev(1, 1)
+                    ctx.count("refused")
+                try:
+                    r = getattr(f, gname)(model=k)
+                    got = ("returned", canon_result(r)[:200])
+                except Exception as x:  # noqa: BLE001
+                    got = ("raised", type(x).__name__)
+                ctx.outcome(("model_range", name, k, gname, got[0]))
+                if got[0] != "raised":
+                    return fail("PDBFile.getters", "nonexistent_model_not_refused", klass,
+                                "%s(model=%d) on a file with %d model(s) returned something" % (gname, k, m), "an exception", got[1])
+        if count:
+            ctx.ev(1, 1)
+            ctx.count("refused")
+        try:
+            f.get_structure(model=1, extra_fields=["b_factor", "no_such_field"])
+            return fail("PDBFile.get_structure", "unknown_field_not_refused", "extra_field_beyond_the_known_ones", "accepted", "ValueError",
+                        "returned")
+        except Exception:  # noqa: BLE001
+            pass
+        obs = reuse_observe(f)
+        if obs != ref_obs or [str(x) for x in f.lines] != ref_lines:
+            bad = next(g for (g, a, b), (_, c, d) in zip(obs + [("lines", 0, 0)], ref_obs + [("lines", 1, 1)]) if (a, b) != (c, d))
+            return fail("PDBFile.getters", "refused_call_changed_state", "after_out_of_range_model",
+                        "%s differs after refused getter calls" % bad, "unchanged", bad)
+        return
+    # ---- G: ambient interpreter state changes between / during the operations ---------------------------------
+    if what == "ambient":
+        name, state, phase = case["item"], case["state"], case["phase"]
+        strict = state in ("printoptions", "errstate_ignore")
+        klass = "ambient_%s_during_%s" % (state, phase)
+        if name in REUSE_BAD:
+            if count:
+                ctx.count("refused")
+            arr, h36 = reuse_build(name)
+            f = PDBFile()
+            f.lines = [SENTINEL]
+            try:
+                with _Ambient(state, True):
+                    f.set_structure(arr, hybrid36=h36)
+                raised = False
+            except Exception:  # noqa: BLE001
+                raised = True
+            ctx.outcome(("ambient", name, state, raised))
+            if not raised or list(f.lines) != [SENTINEL]:
+                return fail("PDBFile.set_structure", "not_refused" if not raised else "state_changed_on_refusal", klass,
+                            "invalid structure under another ambient state", "refusal, lines untouched", [str(x) for x in f.lines][:3])
+            return
+        if count:
+            ctx.count("accepted" if strict else "unspecified")
+        ref_lines, ref_obs = reuse_ref(name)
+        arr, h36 = reuse_build(name)
+        f = PDBFile()
+        try:
+            with _Ambient(state, phase in ("write", "both")):
+                f.set_structure(arr, hybrid36=h36)
+            lines = [str(x) for x in f.lines]
+            with _Ambient(state, phase in ("read", "both")):
+                g = PDBFile.read(io.StringIO("\n".join(lines) + "\n"))
+                obs = reuse_observe(g)
+                obs_same_object = reuse_observe(f)
+        except Exception as x:  # noqa: BLE001  (reuse_observe catches getter errors itself)
+            ctx.outcome(("ambient", name, state, phase, "raised", type(x).__name__))
+            if strict:
+                return fail("PDBFile.set_structure", "unexpected_" + type(x).__name__, klass,
+                            "valid structure refused under another ambient state", "file", repr(x)[:200])
+            return
+        ctx.outcome(("ambient", name, state, phase, "ok"))
+        if [ln.rstrip() for ln in lines] != [ln.rstrip() for ln in ref_lines]:
+            k = next((i for i, (a, b) in enumerate(zip(lines, ref_lines)) if a != b), 0)
+            return fail("PDBFile.set_structure", "lines_depend_on_ambient_state", klass, "written lines differ", ref_lines[k:k + 2],
+                        lines[k:k + 2])
+        for o in (obs, obs_same_object):
+            for (gname, st, val), (_, rst, rval) in zip(o, ref_obs):
+                if (st, val) != (rst, rval):
+                    if st == "exc" and not strict:
+                        continue  # the state turns warnings / floating point flags into exceptions: unspecified
+                    return fail("PDBFile." + gname, "result_depends_on_ambient_state", klass, "getter result differs",
+                                [rst, rval[:300]], [st, val[:300]])
+        return
+    # ---- I: boundary values of the occupancy that the altloc policy compares ---------------------------------------
+    if what == "altloc":
+        stack, occ, opt = case["stack"], OCC_POLICY[case["occ"]], case["option"]
+        if count:
+            ctx.count("accepted")
+        e = flavour_base(stack)
+        e["res_id"], e["ins_code"], e["chain_id"] = [1, 1, 2], ["", "", ""], ["A", "A", "A"]
+        e["occupancy"] = occ
+        f = PDBFile()
+        f.set_structure(build(e, stack))
+        g = PDBFile.read(io.StringIO("\n".join(str(x) for x in f.lines) + "\n"))
+        cl = {"atom_id": "A", "res_id": ["A"] * 3}
+        try:
+            got = [("get_structure(altloc=%r)" % opt, g.get_structure(altloc=opt, extra_fields=EXTRA), list(range(e["m"])))]
+            for k in range(1, e["m"] + 1):
+                got.append(("get_structure(model=%d, altloc=%r)" % (k, opt), g.get_structure(model=k, altloc=opt, extra_fields=EXTRA),
+                            [k - 1]))
+        except Exception as x:  # noqa: BLE001
+            return fail("PDBFile.get_structure", "unexpected_" + type(x).__name__, "altloc_%s_occupancy_%s" % (opt, case["occ"]),
+                        "file without alternate locations not readable with this altloc option", "structure", repr(x)[:200])
+        ctx.outcome(("altloc", stack, case["occ"], opt, got[0][1].array_length()))
+        for tag, s_, mm in got:
+            bad = compare(s_, e, mm, cl, tag)
+            if bad:
+                return fail("PDBFile.get_structure", "roundtrip_" + bad[0], "altloc_%s_occupancy_%s" % (opt, case["occ"]),
+                            "atoms of a file without alternate locations dropped / changed by the altloc policy (%s)" % tag, bad[1],
+                            bad[2])
+            if opt == "all" and [str(v).strip() for v in s_.altloc_id] != [""] * 3:
+                return fail("PDBFile.get_structure", "altloc_id_invented", "altloc_all", "non-blank altloc id", [" "] * 3,
+                            s_.altloc_id.tolist())
+        return
+    raise ValueError(case)
